@@ -3,7 +3,7 @@
    Notation: *E = Eigen (matrix-expression) branch of POMDP/Utils.hpp, *Q = query-loop branch run on a
    query model g with [repr g m] (g answers m's tables); tau_step is Base.Mdp's unnormalised filter. *)
 From Coq Require Import List Arith QArith Lia.
-From AIT Require Import Base.Qx Base.Mdp C05.Model C05.Spec C05.ProofsWf C05.ProofsMain C05.ProofsSparse.
+From AIT Require Import Base.Qx Base.Mdp C05.Model C05.Spec C05.ProofsWf C05.ProofsMain C05.ProofsSparse C05.ProofsOps C05.ProofsHist.
 Import ListNotations.
 Local Open Scope Q_scope.
 
@@ -115,8 +115,8 @@ Proof. exact wf_pomdpb_sound. Qed.
 Print Assumptions wf_checker_sound.
 
 (* sparse library models (tables sparsified with the 1e-6 threshold): when every entry is zero or above
-   the threshold, all Eigen-branch functions give the dense model's results.  (The general statement with
-   an explicit error term for dropped entries is not proved; see notes/C05.md.) *)
+   the threshold, all Eigen-branch functions give the dense model's results exactly (general case with the
+   error term: sparse_path_error below) *)
 Theorem sparse_path_exact : forall m b v a o, sparse_safe m ->
   veq (partialE (sparse_of m) b a) (partialE m b a) /\
   veq (unnormE (sparse_of m) b a o) (unnormE m b a o) /\
@@ -132,6 +132,75 @@ Theorem sparse_safe_entries : forall x, (safe_entry x <-> (x == 0 \/ epsS < qabs
   (x == 0 \/ (1 # 524288) <= x -> safe_entry x).
 Proof. exact (fun x => conj (safe_entry_iff x) (safe_entry_big x)). Qed.
 Print Assumptions sparse_safe_entries.
+
+(* ---- the model object over its life (construct, then any sequence of setter calls) ----
+   [step] models one call of setObservationFunction / setTransitionFunction (validate, then commit; a
+   rejected call — std::invalid_argument in the C++ — returns the OLD state) or setRewardFunction. *)
+Theorem setter_validate_then_commit : forall st t,
+  (prob_tableb t = false -> step st (OpSetObs t) = (st, false) /\ step st (OpSetT t) = (st, false)) /\
+  (prob_tableb t = true -> step st (OpSetObs t) = (with_obs st t, true) /\ step st (OpSetT t) = (with_T st t, true)) /\
+  (forall r, prob_rowb r = true <-> nonneg r /\ - epsS <= qsum r - 1 /\ qsum r - 1 <= epsS).
+Proof. exact (fun st t => conj (step_rejected st t) (conj (step_accepted st t) prob_rowb_spec)). Qed.
+Print Assumptions setter_validate_then_commit.
+
+(* invariant, by induction over the operation list: every reachable state is a well-formed POMDP of the
+   same dimensions, provided every table offered is either an exact set of distributions or rejected by
+   the validator ([op_ok]) *)
+Theorem reachable_states_wf : forall ops st,
+  wf_pomdp st -> Forall (op_ok (nS (pm st)) (nA (pm st)) (nO st)) ops ->
+  wf_pomdp (run st ops) /\ nS (pm (run st ops)) = nS (pm st) /\ nA (pm (run st ops)) = nA (pm st) /\ nO (run st ops) = nO st.
+Proof. exact run_wf. Qed.
+Print Assumptions reachable_states_wf.
+
+(* hence every belief update on a reachable state is the Bayes filter / posterior of the tables it holds *)
+Theorem history_updates_are_bayes : forall st0 ops,
+  wf_pomdp st0 -> Forall (op_ok (nS (pm st0)) (nA (pm st0)) (nO st0)) ops ->
+  let st := run st0 ops in
+  wf_pomdp st /\
+  forall b a o, simplex (nS (pm st)) b -> (a < nA (pm st))%nat -> (o < nO st)%nat ->
+    veq (unnormE st b a o) (tau_step st b a o) /\
+    veq (unnormQ (queries_of st) b a o) (tau_step st b a o) /\
+    nonneg (unnormE st b a o) /\ qsum (unnormE st b a o) == obs_prob st b a o /\
+    (0 < obs_prob st b a o ->
+       (exists p, updateE st b a o = map XFin p /\ is_posterior st b a o p) /\
+       (exists p, pnormE st (partialE st b a) a o = map XFin p /\ is_posterior st b a o p)).
+Proof. exact history_bayes_lemma. Qed.
+Print Assumptions history_updates_are_bayes.
+
+(* the general sparse statement (closes the "sparse within the sparsification term" clause): for ANY
+   well-formed POMDP, entries in (0, 1e-6] being dropped by the sparse models, every entry of the sparse
+   unnormalised update is below the dense one by at most 2 * 1e-6, for every belief on the simplex *)
+Theorem sparse_path_error : forall m b a o s',
+  wf_pomdp m -> simplex (nS (pm m)) b -> (a < nA (pm m))%nat -> (o < nO m)%nat -> (s' < nS (pm m))%nat ->
+  0 <= nthq (unnormE m b a o) s' - nthq (unnormE (sparse_of m) b a o) s' /\
+  nthq (unnormE m b a o) s' - nthq (unnormE (sparse_of m) b a o) s' <= 2 * epsS.
+Proof. exact sparse_error_lemma. Qed.
+Print Assumptions sparse_path_error.
+
+(* boundary case: a constant observation column carries no information *)
+Theorem uninformative_observation : forall m b a o c p,
+  wf_pomdp m -> simplex (nS (pm m)) b -> (a < nA (pm m))%nat -> (o < nO m)%nat ->
+  (forall s', (s' < nS (pm m))%nat -> Op m s' a o == c) -> 0 < c ->
+  is_posterior m b a o p ->
+  obs_prob m b a o == c /\ veq p (predict m b a).
+Proof. exact uninformative_lemma. Qed.
+Print Assumptions uninformative_observation.
+
+(* filtering along a history of (action, observation) pairs: calling updateBelief repeatedly (normalising
+   at every step; either branch) gives a belief on the simplex that is proportional to the composed
+   unnormalised filter, with normaliser hist_prob = the probability of the observation sequence *)
+Theorem history_filter : forall m g h b,
+  wf_pomdp m -> repr g m -> hist_ok m h -> simplex (nS (pm m)) b -> 0 < hist_prob m b h ->
+  (exists p, updateE_hist m b h = Some p /\ simplex (nS (pm m)) p /\
+             forall i, nthq p i * hist_prob m b h == nthq (tau_hist m b h) i) /\
+  (exists p, updateQ_hist g b h = Some p /\ simplex (nS (pm m)) p /\
+             forall i, nthq p i * hist_prob m b h == nthq (tau_hist m b h) i).
+Proof. exact hist_filter_lemma. Qed.
+Print Assumptions history_filter.
+
+Theorem history_twin : forall m h v, veq (tau_hist_r m v h) (tau_hist m v h).
+Proof. exact tau_hist_r_veq. Qed.
+Print Assumptions history_twin.
 
 (* oracle side: the reduced-fraction twins the driver executes equal the spec, and the boolean
    checkers it runs on the implementation's outputs are sound *)
@@ -167,3 +236,19 @@ Proof. split; vm_compute; reflexivity. Qed.
 
 Example ex_sparse_safe : sparse_safe ex_m.
 Proof. repeat split; repeat (constructor; try (apply safe_entry_big; (left; reflexivity) || (right; unfold Qle; cbn; lia))). Qed.
+
+(* a history with a rejected call: a table with a row summing to 9/8 and a negative entry is refused and the
+   state is unchanged; the valid table that follows is installed; the history meets [op_ok] *)
+Definition ex_bad_O : list mat := [ [[1#2; 1#2]; [7#8; 1#4]; [5#4; -1#4]]; [[1; 0]; [1; 0]; [1; 0]] ].
+Definition ex_new_O : list mat := [ [[0; 1]; [1#2; 1#2]; [1; 0]]; [[1#4; 3#4]; [0; 1]; [1#2; 1#2]] ].
+Example ex_history :
+  Forall (op_ok (nS (pm ex_m)) (nA (pm ex_m)) (nO ex_m)) [OpSetObs ex_bad_O; OpSetR3 ex_R3; OpSetObs ex_new_O] /\
+  step ex_m (OpSetObs ex_bad_O) = (ex_m, false) /\
+  Ob (run ex_m [OpSetObs ex_bad_O; OpSetR3 ex_R3; OpSetObs ex_new_O]) = ex_new_O.
+Proof.
+  split; [| split; vm_compute; reflexivity].
+  repeat constructor; cbn [op_ok]; intros H; vm_compute in H |- *; congruence.
+Qed.
+
+Example ex_history_filter : hist_ok ex_m [(0, 0); (1, 1); (0, 1)]%nat /\ 0 < hist_prob ex_m ex_b [(0, 0); (1, 1); (0, 1)]%nat.
+Proof. split; [repeat constructor| vm_compute; reflexivity]. Qed.
